@@ -9,7 +9,7 @@
 From Coq Require Import String Ascii List Bool Arith ZArith.
 Import ListNotations.
 Require Import PyBase PyStr Lex LexCoverFacts Symbols Split SplitFacts SplitChunks SplitChunksFacts SplitBalanceFacts Merge ParseEq ParseEqFacts ParseModel ParseModelFacts ParseModelExamples
-               ParseContribFacts ParseContribExamples FormatDecideFacts.
+               ParseContribFacts ParseContribExamples FormatDecideFacts SplitInsertFacts.
 Open Scope string_scope.
 
 Section C13.
@@ -97,6 +97,14 @@ Section C13.
     parse_model_M chk cs s = PUnmodelled ->
     exists st, In st (fst (split_M s)) /\ stray_open (scan_items st) = true.
   Proof. exact (parse_model_unmodelled chk cs s). Qed.
+
+  (* what must NOT change: one more blank or comment-only line at a point where no bracket and no fence is open changes
+     neither the statements, nor the exception, nor the result — every script, every oracle, both check_syntax settings *)
+  Theorem C13_blank_line_between_statements_irrelevant cs s1 s2 a b l st' :
+    model_lines s1 = (a ++ b)%list -> model_lines s2 = (a ++ l :: b)%list ->
+    final_state s0 a = Some st' -> buffer st' = [] -> is_blank l = true ->
+    split_M s2 = split_M s1 /\ parse_model_M chk cs s2 = parse_model_M chk cs s1.
+  Proof. exact (blank_line_between_statements_irrelevant chk cs s1 s2 a b l st'). Qed.
 End C13.
 Print Assumptions C13_every_exception_classified.
 Print Assumptions C13_own_errors_only.
@@ -108,6 +116,7 @@ Print Assumptions C13_accepted_means_every_code_compiled.
 Print Assumptions C13_no_statement_discarded.
 Print Assumptions C13_every_statement_contributes.
 Print Assumptions C13_model_decides_unless_stray_brace.
+Print Assumptions C13_blank_line_between_statements_irrelevant.
 
 (* one statement, taken alone: a verbatim statement or a guarded equation yields exactly one emitting symbol *)
 Theorem C13_statement_emits_one st syms :
@@ -149,6 +158,10 @@ Print Assumptions C13_split_statements_valid.
 Theorem C13_statements_have_no_comment s y : In y (fst (split_M s)) -> has_char "#" y = false.
 Proof. exact (statements_have_no_comment s y). Qed.
 Print Assumptions C13_statements_have_no_comment.
+Theorem C13_comment_only_line_is_blank w c :
+  forallb is_pyspace (list_ascii_of_string w) = true -> is_blank (strip_comments (w ++ String "#" c)) = true.
+Proof. exact (comment_only_line_blank w c). Qed.
+Print Assumptions C13_comment_only_line_is_blank.
 Theorem C13_comment_free_line_unchanged line : has_char "#" line = false -> strip_comments line = line.
 Proof. exact (strip_comments_id line). Qed.
 Print Assumptions C13_comment_free_line_unchanged.
